@@ -223,3 +223,23 @@ def seq_match(got: List[Any], items: List[Tuple[Any, bool]], eq=None) -> Tuple[b
     if p != len(got):
         return False, f"unexpected delivery: {got[p]!r}"
     return True, ""
+
+
+def norm_any(m: Any) -> Any:
+    """Normalised (kind, id, method, params, result, error) of a library message object or a wire
+    dict; absent and null members are identified (result:null responses stay responses)."""
+    if isinstance(m, list):
+        return ("list", tuple(norm_any(x) for x in m))
+    if isinstance(m, dict):
+        g = m.get
+    else:
+        def g(k, _m=m):
+            return getattr(_m, k, None)
+    mid, method, params, result, error = g("id"), g("method"), g("params"), g("result"), g("error")
+    if method is not None:
+        kind = "request" if mid is not None else "notification"
+    elif error is not None:
+        kind = "error"
+    else:
+        kind = "response"
+    return (kind, tagged(mid), method, tagged(params), tagged(result), tagged(error))
